@@ -20,7 +20,7 @@ inequality gives the distance to the CIE formulas.
   `xyy_black_fp` — the `is_null` guard (exact comparison).
 * `hlab_forward_fp` — Hunter Lab, `X, Z ∈ [0, 1.1]`, `Y ∈ [1e-5, 1.1]`: `L` within `1e-12`, `a`, `b` within `1e-9`
   (the quotient by `√(Y/100) ≥ 3e-4` is handled in relative error); `hlab_black_fp` — the guard `Y == 0`.
-* CIELUV forward: NOT proved (GOAL comment at the end).
+* CIELUV forward: see `Props/C06_fp_luv.lean`.
 -/
 namespace Props.C06_fp
 open Gen FpErr FpLin FpCie
@@ -178,15 +178,8 @@ theorem xyy_black_fp (M : FPModel) (x : Xyz (RF M)) (h1 : x.x.val = 0) (h2 : x.y
   · refine le_trans (le_of_eq ?_) (l1.trans (by norm_num [FP.eps])); norm_num
   · refine le_trans (le_of_eq ?_) (l2.trans (by norm_num [FP.eps])); norm_num
 
-/- GOAL (not proved): CIELUV forward in `RF M`.
-theorem luv_forward_fp (M : FPModel) (x : Xyz (RF M)) (0 ≤ X, Z ≤ 1.1) (1e-5 ≤ Y ≤ 1.1) (Clear (Y / Yn)) :
-    each of `l`, `u`, `v` of `Luv.from_Xyz x` is within `1e-9` of `Luv.from_Xyz (α := ℝ) ⟨X, Y, Z⟩`
-(black: exact through the guard of `compute_compounds`, which is an exact comparison).
-Missing: `M.pow y (rnd (1/3))` against `y^(1/3)` for `y ∈ (0.0088, 1.1]` (`M.pow_err`, `Lemmas.FpXyz.rpow_exp_close`,
-`FpCie.cbrt_lipschitz`), and `u' = 4X/(X + 15Y + 3Z)` via `FpCie.div_rel_exact` (the denominator is a sum of
-non-negative terms, relative error `6·eps` as in `FpCie.sum3_rel`); then `13·L·(u' − u'n)` by `FpLin.Near`.
-The same side condition `Clear` as for CIELAB is needed (the lightness test `y > ε` switches between
-`116·y^(1/3) − 16` and `κ·y`, which differ by `3.3e-5` at the threshold). -/
+/- CIELUV forward in `RF M`: proved in `Props/C06_fp_luv.lean` (`Props.C06_fp_luv.luv_forward_fp`, `luv_black_fp`,
+`luv_forward_of_rgb_fp`, `luv_forward_cie_fp`; helper lemmas in `Lemmas/FpLuv.lean`). -/
 
 /-! ## examples: the hypotheses are satisfiable -/
 
